@@ -86,7 +86,7 @@ def run(ctx):
         n8 = engine.take_over(ctx, c2.obs, lambda o: o.rule == "C09.4" and o.key.endswith("|request-gets-positioned-reader"), "C03.8")
         ctx.floor("C03.8 obligations on the reader handed to new_request", n8, 1)
     except CheckerError as e:
-        ctx.ob("C03.8", "positioned-reader", "the head reader's hand-over of the socket reader could be evaluated", False, "client.rs", str(e))
+        raise CheckerError("C03.8 (the head reader's hand-over of the socket reader could not be evaluated): %s" % e)
     return finish_c03(ctx, facts)
 
 
